@@ -93,6 +93,7 @@ ORGANICS = [
     # tri- / tetra-substituted stereo double bonds (atom 0 as the lower ranked substituent), small-ring alkenes with wide
     # exocyclic angles, oximes / azo compounds
     "C/C(Cl)=C/C", "C/C(CC)=C/C", "F/C(Cl)=C(/Br)I", "Cl/C(C)=C/C", "C/C=C(/C)Cl", "CC1=C(C)C1", "FC1=C(Cl)C1", "CC1=C(C)C1(C)C",
+    "FP(F)(F)(F)Cl", "F/C=C/P(F)(F)(F)Cl", "C[C@H](F)S(F)(F)(F)(F)Cl", "FS(F)(F)(F)(Cl)Br",
     "C=C1CC1", "C1=CCC1", "C/C=N/O", "C/C=N\\O", "C/N=N/C", "C/N=N\\C", "Cc1cccnc1", "F/C=C(/Cl)Br", "C(/F)(Cl)=C(/F)Cl",
 ]
 
